@@ -587,7 +587,9 @@ def canonical_ok(op, kinds, tcls, icls):
     return True
 
 
-def abstract_inputs(model, op, kinds):
+def abstract_inputs(model, op, kinds, allowed=None):
+    """allowed: set of (tpart, ipart) aliasings the canonicaliser can produce for this form (computed from bc.rs);
+    None = use the hand-derived restriction `canonical_ok`."""
     tpos = [i for i, k in enumerate(kinds) if k == "Tmp"]
     ipos = [i for i, k in enumerate(kinds) if k == "Mem"]
     has_imm = "Imm" in kinds
@@ -597,7 +599,10 @@ def abstract_inputs(model, op, kinds):
         for ip in set_partitions(len(ipos)):
             tcls = {p: c for p, c in zip(tpos, tp)}
             icls = {p: c for p, c in zip(ipos, ip)}
-            canon = canonical_ok(op, tuple(kinds), tcls, icls)
+            if allowed is not None:
+                canon = (tuple(tp), tuple(ip)) in allowed
+            else:
+                canon = canonical_ok(op, tuple(kinds), tcls, icls)
             classes = sorted(set(tp))
             dstcls = tcls.get(0)
             per_class = []
@@ -786,15 +791,36 @@ def run_sel(res, ast, rules=("SEL-EFFECT", "SEL-COVER")):
         for r in rules:
             res.missing(r, m)
         return None
+    # the forms the JIT can be handed are computed from bc.rs itself (parameter_reordering evaluated over every form
+    # allocate_temps can leave behind); the hand-derived table is kept as a cross-check and reported in a note
+    res.rule("CANON-FORMS", "bc::CodeGen::parameter_reordering can be evaluated for every (operation, operand kinds, aliasing, order of "
+             "temporary indices); its image is the set of forms SEL-EFFECT / SEL-COVER quantify over", floor=1, what="canonicaliser evaluations")
+    try:
+        computed, npre = computed_canonical(ast)
+        res.ok("CANON-FORMS", f"{BC}|parameter_reordering", f"{BC} (parameter_reordering)", f"{npre} pre-forms -> {len(computed)} canonical (form, aliasing) classes")
+        res.files.add(BC)
+    except (Missing, Unanalysable, Reached, KeyError) as u:
+        res.bad("CANON-FORMS", f"{BC}|parameter_reordering", f"{BC} (parameter_reordering)",
+                f"the canonicaliser cannot be analysed (fail closed): {u}; the forms the selector must cover are unknown")
+        return None
+    shapes = sorted({(o, k) for o, k, _, _ in computed})
+    hand = set(canonical_forms())
+    if set(shapes) != hand:
+        res.notes.append(f"canonical forms computed from bc.rs differ from the hand-derived table: new {sorted(set(shapes) - hand)}, gone {sorted(hand - set(shapes))}; the computed set is used")
+    else:
+        res.notes.append("canonical forms computed from bc.rs equal the hand-derived table (40 shapes)")
+    allowed = {}
+    for o, k, tp, ip in computed:
+        allowed.setdefault((o, k), set()).add((tp, ip))
     stats = {"forms": 0, "inputs": 0, "sequences": set(), "arms_hit": set(), "noncanonical_inputs": 0,
              "noncanonical_wrong": 0}
     arm_arith = [i for i, a in enumerate(model.match["arms"])
                  if a["pat"]["t"] == "PTupleStruct" and a["pat"]["path"]["name"] in
                  ("Instr::Copy", "Instr::Add", "Instr::Sub", "Instr::Mul")]
-    for op, kinds in canonical_forms():
+    for op, kinds in shapes:
         stats["forms"] += 1
         form = f"{op}({','.join(kinds)})"
-        for inp in abstract_inputs(model, op, kinds):
+        for inp in abstract_inputs(model, op, kinds, allowed[(op, kinds)]):
             r = evaluate(model, op, kinds, inp)
             res.evaluations += 1
             key_in = input_key(kinds, inp, model)
@@ -847,3 +873,216 @@ def run_sel(res, ast, rules=("SEL-EFFECT", "SEL-COVER")):
     return {"forms": stats["forms"], "abstract_inputs": stats["inputs"], "distinct_sequences": len(stats["sequences"]),
             "arms_selected": len(stats["arms_hit"]), "arithmetic_arms": len(arm_arith),
             "tmp_regs": model.tmp_regs, "thresholds": model.thresholds}
+
+
+# ----------------------------------------------------------------------------- canonical forms computed from bc.rs
+
+BC = "src/bc.rs"
+
+
+class Slot:
+    """The element `self.insts[i]` being rewritten."""
+
+    def __init__(self, instr):
+        self.instr = instr
+
+
+class LocRef:
+    """A `&mut Loc` bound by `match &mut self.insts[i]`: position `idx` of the instruction in `slot`."""
+
+    def __init__(self, slot, idx):
+        self.slot, self.idx = slot, idx
+
+    def get(self):
+        return self.slot.instr.locs[self.idx]
+
+    def __repr__(self):
+        return f"&mut {self.get()!r}"
+
+
+class CanonInterp(Interp):
+    """Evaluates the body of bc::CodeGen::parameter_reordering for one abstract instruction."""
+
+    def __init__(self, slot, rank):
+        super().__init__()
+        self.slot, self.rank = slot, rank
+
+    def eval(self, e, env):
+        e0 = strip_paren(e)
+        if e0["t"] == "Reference" and self._is_slot(e0["expr"]):
+            return ("slotref", self.slot)
+        if self._is_slot(e0):
+            return self.slot.instr
+        if e0["t"] == "PathExpr" and e0["path"]["name"] == "self":
+            return "self"
+        return super().eval(e, env)
+
+    def _is_slot(self, e):
+        e = strip_paren(e)
+        return e["t"] == "Index" and strip_paren(e["expr"])["t"] == "Field" and strip_paren(e["expr"])["member"] == "insts" and path_name(strip_paren(e["index"])) == "i"
+
+    def assign_place(self, place, value, env, node):
+        if self._is_slot(place):
+            if not isinstance(value, InstrV):
+                raise Unanalysable("assignment of a non-instruction to self.insts[i]")
+            self.slot.instr = value
+            return
+        return super().assign_place(place, value, env, node)
+
+    def call(self, name, targs, args, node):
+        if name.startswith("Instr::"):
+            locs = [a.get() if isinstance(a, LocRef) else a for a in args]
+            return InstrV(name[7:], locs)
+        if name.startswith("Loc::"):
+            return LocV(name[5:], args[0])
+        if name in ("mem::swap", "std::mem::swap"):
+            a, b = args
+            if not (isinstance(a, LocRef) and isinstance(b, LocRef) and a.slot is b.slot):
+                raise Unanalysable("mem::swap of something other than two operands of the instruction")
+            ls = a.slot.instr.locs
+            ls[a.idx], ls[b.idx] = ls[b.idx], ls[a.idx]
+            return UNIT
+        raise Unanalysable(f"call of {name}")
+
+    def method(self, recv, name, targs, args, node):
+        if isinstance(recv, ImmV) and name in ("wrapping_add", "wrapping_mul", "wrapping_neg"):
+            return ImmV("C", "imm")       # a folded immediate is again some immediate
+        raise Unanalysable(f".{name}() on {recv!r}")
+
+    def match(self, pat, val, env):
+        if isinstance(val, LocRef) and pat["t"] != "PIdent":
+            return self.match(pat, val.get(), env)
+        if isinstance(val, tuple) and val and val[0] == "slotref":
+            # `match &mut self.insts[i] { Instr::X(a, b, c) => .. }`: bind references to the operands
+            slot = val[1]
+            if pat["t"] == "POr":
+                for c in pat["cases"]:
+                    e2 = env.child()
+                    if self.match(c, val, e2):
+                        env.vars.update(e2.vars)
+                        return True
+                return False
+            if pat["t"] == "PWild":
+                return True
+            if pat["t"] == "PTupleStruct" and pat["path"]["name"].startswith("Instr::"):
+                ins = slot.instr
+                if pat["path"]["name"][7:] != ins.op or len(pat["elems"]) != len(ins.locs):
+                    return False
+                for i, p in enumerate(pat["elems"]):
+                    if p["t"] == "PIdent":
+                        env.bind(p["name"], LocRef(slot, i))
+                    elif not self.match(p, ins.locs[i], env):
+                        return False
+                return True
+            if pat["t"] == "PPath":
+                return slot.instr.op == pat["path"]["name"].split("::")[-1] and not slot.instr.locs
+            raise Unanalysable("pattern on &mut self.insts[i]")
+        return super().match(pat, val, env)
+
+    def match_ctor(self, name, elems, val, env, node):
+        if name.startswith("Instr::"):
+            if not isinstance(val, InstrV):
+                raise Unanalysable("Instr pattern")
+            if name[7:] != val.op or len(elems) != len(val.locs):
+                return False
+            return all(self.match(p, v, env) for p, v in zip(elems, val.locs))
+        if name.startswith("Loc::"):
+            if not isinstance(val, LocV):
+                raise Unanalysable(f"Loc pattern against {val!r}")
+            return name[5:] == val.kind and self.match(elems[0], val.v, env)
+        raise Unanalysable(f"pattern {name}")
+
+    def match_path(self, name, val, node):
+        if name.startswith("Instr::"):
+            return isinstance(val, InstrV) and val.op == name[7:]
+        raise Unanalysable(name)
+
+    def macro(self, name, mac, env, node):
+        if name == "matches" and "matches" in mac:
+            v = self.eval(mac["matches"]["expr"], env)
+            scope = env.child()
+            ok = self.match(mac["matches"]["pat"], v, scope)
+            if ok and mac["matches"]["guard"] is not None:
+                ok = self.cond(mac["matches"]["guard"], scope)
+            return ok
+        return super().macro(name, mac, env, node)
+
+    def equal(self, a, b, node):
+        a = a.get() if isinstance(a, LocRef) else a
+        b = b.get() if isinstance(b, LocRef) else b
+        if isinstance(a, LocV) and isinstance(b, LocV):
+            if a.kind != b.kind:
+                return False
+            if a.kind == "Imm":
+                raise Unanalysable("comparison of two immediates")
+            return a.v.cls == b.v.cls
+        return super().equal(a, b, node)
+
+    def binary(self, op, l, r, node):
+        l = l.get() if isinstance(l, LocRef) else l
+        r = r.get() if isinstance(r, LocRef) else r
+        if isinstance(l, TmpV) and isinstance(r, TmpV) and op in ("<", "<=", ">", ">="):
+            a, b = self.rank[l.cls], self.rank[r.cls]
+            return {"<": a < b, "<=": a <= b, ">": a > b, ">=": a >= b}[op]
+        return super().binary(op, l, r, node)
+
+    def unary(self, op, v, node):
+        if op == "*":
+            return v.get() if isinstance(v, LocRef) else v
+        return super().unary(op, v, node)
+
+
+def computed_canonical(ast):
+    """Forms (op, kinds, aliasing) that leave bc::CodeGen::parameter_reordering, computed by evaluating its loop
+    body for every form allocate_temps can leave behind: dst in {Mem, Tmp}, sources in {Mem, Tmp, Imm}, every
+    aliasing and every relative order of temporary indices.  Returns (set of (op, kinds, tpart, ipart), notes)."""
+    f = ast.fn(BC, "parameter_reordering")["node"]
+    loops = [l for l in walk_t(f["body"], "ForLoop")]
+    if len(loops) != 1:
+        raise Missing("parameter_reordering: expected one loop over the instructions")
+    body = loops[0]["body"]
+    out = set()
+    n = 0
+    for op in ("Copy", "Add", "Sub", "Mul"):
+        nsrc = 1 if op == "Copy" else 2
+        for kinds in itertools.product(("Mem", "Tmp"), *([("Mem", "Tmp", "Imm")] * nsrc)):
+            tpos = [i for i, k in enumerate(kinds) if k == "Tmp"]
+            ipos = [i for i, k in enumerate(kinds) if k == "Mem"]
+            for tp in set_partitions(len(tpos)):
+                ncls = len(set(tp))
+                for perm in itertools.permutations(range(ncls)):
+                    for ip in set_partitions(len(ipos)):
+                        tc = dict(zip(tpos, tp))
+                        ic = dict(zip(ipos, ip))
+                        tmps, idxs = {}, {}
+                        locs = []
+                        for i, k in enumerate(kinds):
+                            if k == "Tmp":
+                                c = tc[i]
+                                tmps.setdefault(c, TmpV(c, (0, None), f"t{c}"))
+                                locs.append(LocV("Tmp", tmps[c]))
+                            elif k == "Mem":
+                                c = ic[i]
+                                idxs.setdefault(c, IdxV(c, f"m{c}"))
+                                locs.append(LocV("Mem", idxs[c]))
+                            else:
+                                locs.append(LocV("Imm", ImmV("C")))
+                        slot = Slot(InstrV(op, locs))
+                        it = CanonInterp(slot, {c: perm[c] for c in range(ncls)})
+                        env = Env()
+                        env.bind("self", "self")
+                        env.bind("i", Opaque("i"))
+                        it.exec_block(body, env)
+                        n += 1
+                        ins = slot.instr
+                        k2 = tuple(l.kind for l in ins.locs)
+                        # canonical renaming of classes in order of appearance
+                        tm, im = {}, {}
+                        tpart, ipart = [], []
+                        for l in ins.locs:
+                            if l.kind == "Tmp":
+                                tpart.append(tm.setdefault(l.v.cls, len(tm)))
+                            elif l.kind == "Mem":
+                                ipart.append(im.setdefault(l.v.cls, len(im)))
+                        out.add((ins.op, k2, tuple(tpart), tuple(ipart)))
+    return out, n
